@@ -387,7 +387,22 @@ def run(ctx: core.Ctx):
         model = core.run_coq_terms(ctx, "c05i", HEADER, terms, shard=60)
         for (names, cols, rows, asyn), m in zip(infer_cases, model):
             distinct.add(("infer", tuple(names), repr(rows)))
-            if asyn:
+            if asyn and len(rows) % 2 == 1:
+                # an asynchronous iterable that is not an async generator object
+                class Rows:
+                    def __init__(self, rs):
+                        self.it = iter(rs)
+
+                    def __aiter__(self):
+                        return self
+
+                    async def __anext__(self):
+                        try:
+                            return next(self.it)
+                        except StopIteration:
+                            raise StopAsyncIteration from None
+                src = Rows(list(rows))
+            elif asyn:
                 async def agen(rows=rows):
                     for r in rows:
                         yield r
